@@ -24,6 +24,9 @@ pub struct PropDef {
     pub well_formed: fn(&Workload) -> bool,
     /// include the schedule's deviation sites in violation signatures (false: only the `sig` elements)
     pub deviation_signature: bool,
+    /// the minimiser drops a didSave that directly follows a didChange of the same document only together
+    /// with that didChange (keeps "save after every edit" histories in their class)
+    pub group_change_save: bool,
     pub rule: &'static str,
     pub components_real: &'static [&'static str],
     pub components_stub: &'static [&'static str],
@@ -69,21 +72,44 @@ fn minimise(def: &PropDef, env: &Env, wl: &Workload, opts: &SimOpts, res: SimRes
     let decisions = |r: &SimResult| r.out.steps.iter().map(|s| s.choice.clone()).collect::<Vec<_>>();
     // 1. events
     let fixed: Vec<usize> = wl.events.iter().enumerate().filter(|(_, e)| !(def.droppable)(e)).map(|(i, _)| i).collect();
-    let droppable: Vec<usize> = (0..wl.events.len()).filter(|i| !fixed.contains(i)).collect();
+    // droppable units: single events, or (didChange, its directly following didSave) pairs
+    let mut follower: BTreeMap<usize, usize> = BTreeMap::new(); // change index -> save index
+    if def.group_change_save {
+        for i in 0..wl.events.len().saturating_sub(1) {
+            if let (Ev::Change { doc, .. }, Ev::Save { doc: d2 }) = (&wl.events[i], &wl.events[i + 1]) {
+                if doc == d2 {
+                    follower.insert(i, i + 1);
+                }
+            }
+        }
+    }
+    let glued: Vec<usize> = follower.values().copied().collect();
+    let droppable: Vec<usize> = (0..wl.events.len()).filter(|i| !fixed.contains(i) && !glued.contains(i)).collect();
+    let expand = |cand: &[usize]| -> Vec<usize> {
+        let mut v: Vec<usize> = cand.to_vec();
+        for c in cand {
+            if let Some(sv) = follower.get(c) {
+                v.push(*sv);
+            }
+        }
+        v
+    };
     let cur_dec = decisions(&best);
-    let kept = ddmin(droppable.clone(), 60, |cand| {
+    let build = |keep: &[usize]| -> (Workload, Vec<Choice>) {
+        let keep = expand(keep);
         let mut w2 = wl.clone();
-        w2.events = wl.events.iter().enumerate().filter(|(i, _)| fixed.contains(i) || cand.contains(i)).map(|(_, e)| e.clone()).collect();
+        w2.events = wl.events.iter().enumerate().filter(|(i, _)| fixed.contains(i) || keep.contains(i)).map(|(_, e)| e.clone()).collect();
         // task ids in P(i) refer to event indices: remap the decision list
-        let map: BTreeMap<usize, usize> = wl.events.iter().enumerate().filter(|(i, _)| fixed.contains(i) || cand.contains(i)).enumerate().map(|(new, (old, _))| (old, new)).collect();
+        let map: BTreeMap<usize, usize> = wl.events.iter().enumerate().filter(|(i, _)| fixed.contains(i) || keep.contains(i)).enumerate().map(|(new, (old, _))| (old, new)).collect();
         let d2: Vec<Choice> = cur_dec.iter().filter_map(|c| match c { Choice::P(i) => map.get(i).map(|n| Choice::P(*n)), other => Some(other.clone()) }).collect();
+        (w2, d2)
+    };
+    let kept = ddmin(droppable.clone(), 60, |cand| {
+        let (w2, d2) = build(cand);
         violates(def, env, &w2, opts, &d2, clause).is_some()
     });
     if kept.len() < droppable.len() {
-        let mut w2 = wl.clone();
-        w2.events = wl.events.iter().enumerate().filter(|(i, _)| fixed.contains(i) || kept.contains(i)).map(|(_, e)| e.clone()).collect();
-        let map: BTreeMap<usize, usize> = wl.events.iter().enumerate().filter(|(i, _)| fixed.contains(i) || kept.contains(i)).enumerate().map(|(new, (old, _))| (old, new)).collect();
-        let d2: Vec<Choice> = cur_dec.iter().filter_map(|c| match c { Choice::P(i) => map.get(i).map(|n| Choice::P(*n)), other => Some(other.clone()) }).collect();
+        let (w2, d2) = build(&kept);
         if let Some(r2) = violates(def, env, &w2, opts, &d2, clause) {
             wl = w2;
             best = r2;
